@@ -1,7 +1,8 @@
 /-
 C13 — specification-only definitions: how the property reads a document through a
 concrete pointer, what "selected by a glob pointer" means, the zones of a pointer
-with respect to a pattern, the one-schema hypothesis (`SpineObj`), sub-documents.
+with respect to a pattern, the one-schema hypothesis (`SpineObj`) and its weakening
+`SpineNoArr`, sub-documents, and the resolver rule of before commit 33969c0.
 None of this is annet code.
 -/
 import AnnetModel.Model.Json
@@ -57,6 +58,24 @@ def spineOk : List String → J → Bool
   | [], _ => true
   | g :: gs, .obj kvs => kvs.all (fun kv => !fnmatch kv.1 g || spineOk gs kv.2)
   | _ :: _, _ => false
+
+def J.isArr : J → Bool
+  | .arr _ => true
+  | _ => false
+
+/-- No array above a selectable pointer: whatever a document has at a proper ancestor of a
+selectable pointer is an object or a scalar (a string, a number, `true`/`false`, `null`).
+Weaker than `SpineObj`; sufficient for the fragment and for filtered documents since
+commit 33969c0 (a pattern stops at a string as it stops at any other scalar). -/
+def SpineNoArr (ps : List (List String)) (d : J) : Prop :=
+  ∀ p ∈ ps, ∀ q : Ptr, q.length < p.length → prefMatch p q = true → ∀ v, getP q d = some v → v.isArr = false
+
+/-- executable sufficient test for `SpineNoArr [p] d` -/
+def noArrOk : List String → J → Bool
+  | [], _ => true
+  | g :: gs, .obj kvs => kvs.all (fun kv => !fnmatch kv.1 g || noArrOk gs kv.2)
+  | _ :: _, .arr _ => false
+  | _ :: _, _ => true
 
 /-- every acl text is a JSON pointer and `ps` lists their (unescaped) parts -/
 def ParsedAcl : List String → List (List String) → Prop
@@ -147,6 +166,45 @@ def insertByPath (o : Op) : List Op → List Op
 /-- `sorted(ops, key=itemgetter("path"))`: what `make_patch` did before commit 18103e9 -/
 def sortByPath (ops : List Op) : List Op :=
   ops.foldl (fun acc o => insertByPath o acc) []
+
+/-! ### the resolver BEFORE commit 33969c0 (`elif isinstance(doc, Sequence):`)
+
+Not annet code any more: kept to state why the repair matters (`…_old_rule_false`). -/
+
+/-- a Python `str` is a `Sequence`: the old rule enumerated its characters as children -/
+def childrenOfOld : J → List (String × J)
+  | .str s => (strChars s).zipIdx.map (fun (v, i) => (idxKey i, v))
+  | d => childrenOf d
+
+def levelStepOld (part : String) (matched : List (Ptr × J)) : List (Ptr × J) :=
+  matched.flatMap fun m =>
+    ((childrenOfOld m.2).filter (fun kv => fnmatch kv.1 part)).map fun kv => (m.1 ++ [kv.1], kv.2)
+
+def resolveOld (pattern : String) (d : J) : Except Err (List Ptr) := do
+  let parts ← parsePointer pattern
+  ((parts.foldl (fun m part => levelStepOld part m) [([], d)]).map (·.1)).mapM rebuild
+
+/-- `apply_json_fragment` over the old resolver -/
+def fragStepOld (f : J) (r : J) (pattern : String) : Except Err J := do
+  let newPtrs ← resolveOld pattern f
+  let oldPtrs ← resolveOld pattern r
+  let r1 ← newPtrs.foldlM (setStep f) r
+  let toDelete := oldPtrs.filter (fun q => !(newPtrs.contains q))
+  toDelete.foldlM (fun r q => popPtr q r) r1
+
+def applyFragmentOld (old f : J) (acl : List String) : Except Err J :=
+  acl.foldlM (fragStepOld f) old
+
+/-- `apply_acl_filters` over the old resolver -/
+def filterStepOld (content : J) (result : J) (f : String) : Except Err J :=
+  let text := pyStrip f
+  if text = "" then .ok result
+  else do
+    let ptrs ← resolveOld text content
+    ptrs.foldlM (filterPtr content) result
+
+def applyAclFiltersOld (content : J) (filters : List String) : Except Err J :=
+  filters.foldlM (filterStepOld content) (.obj [])
 
 /-- the assumption under which the patch law is stated: the diff library is correct -/
 def LibCorrect (lib : J → J → List Op) : Prop :=
